@@ -10,6 +10,6 @@ cd "$W"
 export CARGO_TARGET_DIR="$W/target"
 bash "$D/demo.sh" "$W" >/tmp/confirm_$$.log 2>&1; clean_rc=$?
 git apply "$D/patch.diff" || { echo "patch does not apply"; exit 8; }
-tests=$(cargo test --workspace --no-fail-fast --offline 2>&1 | grep -E "^test result" | awk '{p+=$4; f+=$6} END {print p" passed "f" failed"}')
+cargo test --workspace --no-fail-fast --offline > /tmp/confirm_tests_$$.log 2>&1; grep -E "^test .*FAILED" /tmp/confirm_tests_$$.log | head -5 >&2; tests=$(grep -E "^test result" /tmp/confirm_tests_$$.log | awk '{p+=$4; f+=$6} END {print p" passed "f" failed"}')
 bash "$D/demo.sh" "$W" >>/tmp/confirm_$$.log 2>&1; mut_rc=$?
 echo "{\"dir\": \"$D\", \"tests_with_change\": \"$tests\", \"demo_rc_clean\": $clean_rc, \"demo_rc_mutated\": $mut_rc}"
